@@ -124,23 +124,23 @@ def task_vector(kind, which):
         try:
             r = I.call(IBound(fn, vec), [], {})
         except IRaise as e:
-            run.fail("C07|%s/raises-nothing" % label, "raised %s" % e)
+            run.fail("C07,C01|%s/raises-nothing" % label, "raised %s" % e)
             return
         if which == "to_set_message" and r is None:
-            run.oblige("C07|%s/no-update-only-for-a-disabled-property" % label, z3.Not(enabled))
+            run.oblige("C07,C01|%s/no-update-only-for-a-disabled-property" % label, z3.Not(enabled))
             return
         if not isinstance(r, IObject):
-            run.fail("C07|%s/returns-a-message" % label, "returned %r" % (r,))
+            run.fail("C07,C01|%s/returns-a-message" % label, "returned %r" % (r,))
             return
         f = r.fields
         dn = I.ghost["device_name"].term
         if r.cls.name == "DelProperty":
-            run.oblige("C07|%s/a-disabled-property-is-announced-as-deleted-never-defined" % label, z3.Not(enabled))
-            run.oblige("C07|%s/delProperty-names-this-device-and-property" % label,
+            run.oblige("C07,C01|%s/a-disabled-property-is-announced-as-deleted-never-defined" % label, z3.Not(enabled))
+            run.oblige("C07,C01|%s/delProperty-names-this-device-and-property" % label,
                        z3.And(I.to_term(f["device"]) == dn, I.to_term(f["name"]) == v["name"].term))
             return
         want_cls = (DEFCLS if which == "to_def_message" else SETCLS)[kind]
-        run.oblige("C07|%s/an-enabled-property-yields-its-own-kind-of-message" % label, z3.And(enabled, z3.BoolVal(r.cls.name == want_cls)))
+        run.oblige("C07,C01|%s/an-enabled-property-yields-its-own-kind-of-message" % label, z3.And(enabled, z3.BoolVal(r.cls.name == want_cls)))
         cs = [I.to_term(f["device"]) == dn, I.to_term(f["name"]) == v["name"].term, I.to_term(f["state"]) == st.term]
         if which == "to_def_message":
             cs += [I.to_term(f["label"]) == lab.term, I.to_term(f["group"]) == v["group"].fields["_definition"].fields["name"].term]
@@ -148,10 +148,10 @@ def task_vector(kind, which):
                 cs.append(I.to_term(f["perm"]) == perm.term)
             if kind == "switch":
                 cs.append(I.to_term(f.get("rule")) == v["rule"])
-        run.oblige("C07|%s/carries-the-device-name-property-name-current-state-and-metadata" % label, z3.And(*cs))
+        run.oblige("C07,C01|%s/carries-the-device-name-property-name-current-state-and-metadata" % label, z3.And(*cs))
         ch = f.get("children")
         ok = isinstance(ch, ChildrenSpec) and ch.region is v["E"] and ch.fn == which and ch.filt == ("enabled",)
-        run.oblige("C07|%s/lists-exactly-the-enabled-elements-in-order-each-through-its-own-%s" % (label, which), z3.BoolVal(bool(ok)),
+        run.oblige("C07,C01|%s/lists-exactly-the-enabled-elements-in-order-each-through-its-own-%s" % (label, which), z3.BoolVal(bool(ok)),
                    note=None if ok else "children: %r" % (getattr(ch, "__dict__", ch),))
         # validity (C13 conformance + C03 precondition) of the vector-level attributes
         val = [in_vocab(I.to_term(f["state"]), "State"), z3.Not(is_none(I.to_term(f["device"]))), z3.Not(is_none(I.to_term(f["name"])))]
@@ -159,8 +159,8 @@ def task_vector(kind, which):
             val.append(in_vocab(I.to_term(f["perm"]), "Permissions"))
         if which == "to_def_message" and kind == "switch":
             val.append(in_vocab(I.to_term(f["rule"]), "SwitchRule"))
-        run.oblige("C07|%s/is-a-valid-protocol-message(vocabulary-fields,required-attributes)" % label, z3.And(*val))
-        run.canary("C07|canary[%s]/never-enabled" % label, z3.Not(enabled))
+        run.oblige("C07,C01|%s/is-a-valid-protocol-message(vocabulary-fields,required-attributes)" % label, z3.And(*val))
+        run.canary("C07,C01|canary[%s]/never-enabled" % label, z3.Not(enabled))
     return task
 
 
@@ -290,15 +290,15 @@ def task_get_properties():
         try:
             I.call(IBound(f, drv), [msg], {})
         except IRaise as e:
-            run.fail("C07|getProperties/raises-nothing", "raised %s" % e)
+            run.fail("C07,C01|getProperties/raises-nothing", "raised %s" % e)
             return
         for v, tag in ((v1, "first"), (v2, "second")):
             wanted = z3.Or(is_none(nm.term), nm.term == v["name"].term)
             got = made.get(id(v["vec"]), [])
             n_sent = sum(1 for m, sender in sent if any(m is g for g in got))
-            run.oblige("C07|getProperties/%s-property-defined-exactly-once-iff-asked-for" % tag,
+            run.oblige("C07,C01|getProperties/%s-property-defined-exactly-once-iff-asked-for" % tag,
                        z3.And(z3.BoolVal(len(got) <= 1 and n_sent == len(got)), wanted == z3.BoolVal(len(got) == 1)))
-        run.oblige("C07|getProperties/nothing-else-is-sent-and-the-driver-is-the-sender",
+        run.oblige("C07,C01|getProperties/nothing-else-is-sent-and-the-driver-is-the-sender",
                    z3.BoolVal(all(any(m is g for gs in made.values() for g in gs) and sender is drv for m, sender in sent)))
     return task
 
